@@ -53,6 +53,10 @@ HOSTILE = {
     "bare-lf": b"GET /0 HTTP/1.1\nHost: a\r\n\r\n",
     "no-host": b"GET /0 HTTP/1.1\r\n\r\n",
     "bad-chunk": b"POST /0 HTTP/1.1\r\nHost: a\r\nTransfer-Encoding: chunked\r\n\r\nzz\r\n",
+    # framing that turns bad after a good chunk: the handler may already be reading the body when it arrives
+    "bad-chunk-later": b"POST /0 HTTP/1.1\r\nHost: a\r\nTransfer-Encoding: chunked\r\n\r\n5\r\nhello\r\nZZ\r\nxx\r\n",
+    "bad-chunk-end-later": b"POST /0 HTTP/1.1\r\nHost: a\r\nTransfer-Encoding: chunked\r\n\r\n5\r\nhello\r\n5\r\nworldXX0\r\n\r\n",
+    "bad-trailer-later": b"POST /0 HTTP/1.1\r\nHost: a\r\nTransfer-Encoding: chunked\r\n\r\n5\r\nhello\r\n0\r\nBad Trailer\r\n\r\n",
     "bad-target": b"GET http://[::1/ HTTP/1.1\r\nHost: a\r\n\r\n",
     "bad-port": b"GET http://h:abc/0 HTTP/1.1\r\nHost: a\r\n\r\n",
     "garbage": b"\x16\x03\x01\x02\x00\x01\x00\x01\xfc\x03\x03",
@@ -283,7 +287,8 @@ class Scen:
         if malformed_input and not self.peer_gone:
             if not finals or not (400 <= finals[-1].status < 500):
                 # a handler that failed before the bad bytes were parsed may already have closed the connection
-                if open_ or not any(r.status >= 500 for r in finals):
+                own_failure = any(r.status >= 500 and self.beh[k % len(self.beh)] in ("exc", "timeout", "none") + MIDFAIL for k, r in enumerate(finals))
+                if open_ or not own_failure:
                     self.P("malformed-not-4xx", f"unparsable input answered with {[r.status for r in finals]} (open={open_})")
             elif open_:
                 self.P("malformed-not-closed", "4xx sent for unparsable input but the connection stays open")
